@@ -172,6 +172,13 @@ class Program:
                     self.inlined.setdefault("<moved back>", []).extend(mv)
             except Exception as e:
                 self.expansion_errors.append(f"<moves>: {type(e).__name__}: {e}")
+            # (0b) methods moved into a new base class / mixin come back into the class that had them
+            try:
+                mx = inline.undo_mixins({n: m.tree for n, m in self.modules.items()})
+                if mx:
+                    self.inlined.setdefault("<mixins merged>", []).extend(mx)
+            except Exception as e:
+                self.expansion_errors.append(f"<mixins>: {type(e).__name__}: {e}")
             # (1) functions that were merely renamed get their original names back
             try:
                 rn = inline.undo_renames({n: m.tree for n, m in self.modules.items()})
